@@ -1,5 +1,10 @@
 package engines
 
+import (
+	"fmt"
+	"strings"
+)
+
 // corpus are fixed scripts of varied shape used by the storage engines (C18,
 // C04) next to generated ones. Each runs to completion in the default world.
 var corpus = []string{
@@ -87,3 +92,76 @@ const ( A = iota; B; C = "c" )
 return [A, B, C, dec.a[1]]
 `,
 }
+
+// edgeCorpus are programs at the size limits of the format: 255/256 locals,
+// many parameters, many constants, long jumps, many free variables, a large
+// string constant, wide literals, deep nesting.
+var edgeCorpus = func() []string {
+	var out []string
+	pre := "global (log, op, choose, call, trace, WID)\n"
+	locals := func(n int) string {
+		var sb strings.Builder
+		sb.WriteString(pre + "f := func(p0) {\n")
+		for i := 1; i < n; i++ {
+			fmt.Fprintf(&sb, "\tv%d := p0 + %d\n", i, i)
+		}
+		fmt.Fprintf(&sb, "\treturn v1 + v%d\n}\nreturn [f(1), call(f, 2)]\n", n-1)
+		return sb.String()
+	}
+	out = append(out, locals(255), locals(256), locals(254))
+	{ // 200 parameters, variadic
+		var ps, as []string
+		for i := 0; i < 200; i++ {
+			ps = append(ps, fmt.Sprintf("a%d", i))
+			as = append(as, fmt.Sprint(i))
+		}
+		out = append(out, pre+"f := func("+strings.Join(ps, ", ")+", ...r) { return [a0, a199, r] }\nreturn [f("+strings.Join(as, ", ")+"), f("+strings.Join(as, ", ")+", 7, 8)]\n")
+	}
+	{ // 700 distinct constants of mixed kinds
+		var sb strings.Builder
+		sb.WriteString(pre + "x := 0\ns := \"\"\n")
+		for i := 0; i < 350; i++ {
+			fmt.Fprintf(&sb, "x += %d\ns = \"k%d\"\n", 1000+i, i)
+		}
+		sb.WriteString("return [x, s, 1.5, 2.5e10, 'z', 77u]\n")
+		out = append(out, sb.String())
+	}
+	{ // a jump over more than 65535 bytes of instructions
+		var sb strings.Builder
+		sb.WriteString(pre + "x := 0\nif choose(0) > 5 {\n")
+		for i := 0; i < 9000; i++ {
+			sb.WriteString("\tx = x + 1\n")
+		}
+		sb.WriteString("}\nfor i := 0; i < 3; i++ { x += 2 }\nreturn x\n")
+		out = append(out, sb.String())
+	}
+	{ // 200 free variables
+		var sb strings.Builder
+		sb.WriteString(pre + "mk := func() {\n")
+		var names []string
+		for i := 0; i < 200; i++ {
+			fmt.Fprintf(&sb, "\tc%d := %d\n", i, i)
+			names = append(names, fmt.Sprintf("c%d", i))
+		}
+		sb.WriteString("\treturn func() { c0++; return " + strings.Join(names, " + ") + " }\n}\ng := mk()\nreturn [g(), g(), call(g)]\n")
+		out = append(out, sb.String())
+	}
+	out = append(out, pre+"s := \""+strings.Repeat("0123456789abcdef", 5000)+"\"\nreturn [len(s), s[79990:]]\n")
+	{ // wide literals and deep nesting
+		var el []string
+		for i := 0; i < 1500; i++ {
+			el = append(el, fmt.Sprint(i))
+		}
+		out = append(out, pre+"a := ["+strings.Join(el, ", ")+"]\nm := {k: "+strings.Repeat("[", 60)+"1"+strings.Repeat("]", 60)+"}\nreturn [len(a), a[1499], m]\n")
+	}
+	{ // a source map with many entries and many lines
+		var sb strings.Builder
+		sb.WriteString(pre + "f := func(x) {\n")
+		for i := 0; i < 400; i++ {
+			sb.WriteString("\n\n\tx = x.v\n")
+		}
+		sb.WriteString("\treturn x\n}\nreturn f({v: {v: 1}})\n")
+		out = append(out, sb.String())
+	}
+	return out
+}()
